@@ -14,6 +14,12 @@ Definition model_F2 (thr : T) (evs : list (list T)) (Vs : list (Mat (T:=T))) (om
 
 Definition flat5 {A} (x : list (list (list (list (list A))))) : list A := concat (concat (concat (concat x))).
 
+(* reading a rank-5 complex array of dyadics (the implementation's F2) *)
+Definition rarr5 (x : list (list (list (list (list ((Z*Z)*(Z*Z))))))) : Arr5 (T:=T) :=
+  map (map (map (map (map (cdy Op))))) x.
+Definition model_shifts (na nk : nat) (F2 : Arr5 (T:=T)) (S : list (list T)) (om : list T) : list T :=
+  flat3 (frequency_shifts Op na nk F2 S om).
+
 (* one entry of _second_order_integral *)
 Definition model_soi (w evi evj evm evn dt : T) : C (T:=T) := soi_entry Op w evi evj evm evn dt.
 
